@@ -100,16 +100,16 @@ pub fn canon(run: &SeqRun, upto: usize, keys: &[K], sketch: bool) -> String {
         }
         format!("?{}", v)
     };
-    let mut s = format!("t{};", o.now_ms - T0_MS);
+    let mut s = format!("t{};", o.now_ms.wrapping_sub(T0_MS) as i64);
     for (k, v, id, e, d) in &o.store {
-        s.push_str(&format!("S{}={}#{}@{:?}{};", k, val(*k, *v), rank(*id), e.map(|e| e - T0_MS), if *d { "d" } else { "" }));
+        s.push_str(&format!("S{}={}#{}@{:?}{};", k, val(*k, *v), rank(*id), e.map(|e| e.wrapping_sub(T0_MS) as i64), if *d { "d" } else { "" }));
     }
     for (id, k, h, w) in &o.weights {
         s.push_str(&format!("W#{}:{}h{}w{};", rank(*id), k, h, w));
     }
     s.push_str(&format!("U{};", o.weight_used));
     for (sh, id, e) in &o.ttl {
-        s.push_str(&format!("T{}#{}@{};", sh, rank(*id), e - T0_MS));
+        s.push_str(&format!("T{}#{}@{};", sh, rank(*id), e.wrapping_sub(T0_MS) as i64));
     }
     let _ = keys;
     if sketch {
@@ -198,7 +198,7 @@ pub fn setup_to_json(s: &Setup) -> Value {
         HashFn::Constant(c) => ("constant", c),
     };
     json!({"weight": s.weight, "counters": s.counters, "capacity": s.capacity, "shards": s.shards, "queue": s.queue, "pool": s.pool, "buffer": s.buffer,
-           "weight_fn": [wf, wa, wb], "hash_fn": [hf, hc]})
+           "weight_fn": [wf, wa, wb], "hash_fn": [hf, hc], "t0_ms": s.t0_ms})
 }
 
 pub fn setup_from_json(v: &Value) -> Setup {
@@ -220,6 +220,7 @@ pub fn setup_from_json(v: &Value) -> Setup {
         buffer: v["buffer"].as_u64().unwrap_or(2) as usize,
         weight_fn: wf,
         hash_fn: hf,
+        t0_ms: v["t0_ms"].as_u64().unwrap_or(T0_MS),
     }
 }
 
